@@ -102,16 +102,24 @@ theorem headersIter_cases (a : ANode) (script : List DAAns) :
       · rename_i bs hbs
         exact Or.inr (Or.inr ⟨bs, by omega, hbs, rfl⟩)
 
+/-- the height the last pending block carries in its data metadata -/
+def lastDH (bs : List Block) : Nat := (bs.getLast?.map dataHeight).getD 0
+
+/-- what a data iteration does when every pending block is empty: it moves the watermark past them -/
+def advOf (a : ANode) (bs : List Block) : ANode × List SW × List SubmitCall × IterOut :=
+  ((raiseWm a true (lastDH bs)).1, (raiseWm a true (lastDH bs)).2, [], .skipped)
+
 theorem dataIter_cases (a : ANode) (script : List DAAns) :
-    (dataIter a script = (a, [], [], .skipped) ∧
-      (a.n.store.height = a.n.dataWm ∨ ∃ bs, pendingBlocks a.n.store a.n.dataWm = some bs ∧ dataItems bs = [])) ∨
+    (dataIter a script = (a, [], [], .skipped) ∧ a.n.store.height = a.n.dataWm) ∨
     (dataIter a script = (a, [], [], .fetchErr) ∧
       (a.n.dataWm > a.n.store.height ∨ pendingBlocks a.n.store a.n.dataWm = none)) ∨
+    (∃ bs, a.n.dataWm < a.n.store.height ∧ pendingBlocks a.n.store a.n.dataWm = some bs ∧ dataItems bs = [] ∧
+      dataIter a script = advOf a bs) ∨
     (∃ bs, a.n.dataWm < a.n.store.height ∧ pendingBlocks a.n.store a.n.dataWm = some bs ∧ dataItems bs ≠ [] ∧
       dataIter a script = iterOf true a (dataItems bs) script) := by
   unfold dataIter
   split
-  · exact Or.inl ⟨rfl, Or.inl (by assumption)⟩
+  · exact Or.inl ⟨rfl, by assumption⟩
   · split
     · exact Or.inr (Or.inl ⟨rfl, Or.inl (by assumption)⟩)
     · split
@@ -120,9 +128,9 @@ theorem dataIter_cases (a : ANode) (script : List DAAns) :
         simp only
         split
         · rename_i he
-          exact Or.inl ⟨rfl, Or.inr ⟨bs, hbs, by simpa [dataItems, dataHeight] using he⟩⟩
+          exact Or.inr (Or.inr (Or.inl ⟨bs, by omega, hbs, by simpa [dataItems, dataHeight] using he, rfl⟩))
         · rename_i he
-          exact Or.inr (Or.inr ⟨bs, by omega, hbs, by simpa [dataItems, dataHeight] using he, rfl⟩)
+          exact Or.inr (Or.inr (Or.inr ⟨bs, by omega, hbs, by simpa [dataItems, dataHeight] using he, rfl⟩))
 
 /-- the items of a header iteration are the headers of stored blocks of the pending range -/
 theorem hdrItems_mem {s : Store} {w : Nat} {bs : List Block} (h : pendingBlocks s w = some bs) :
@@ -149,9 +157,22 @@ theorem dataItems_mem {s : Store} {w : Nat} {bs : List Block} (h : pendingBlocks
 def HdrOK (s : Store) (w : Nat) : Prop :=
   ∀ h, w < h → h ≤ s.height → ∃ b, s.getBlock h = some b ∧ b.sh.hdr.height = h
 
-/-- the non-empty blocks of the pending range carry their own height in the data metadata -/
+/-- the blocks of the pending range carry their own height in the data metadata (the producer appends the metadata
+to the data of every block it commits, empty or not) -/
 def DataOK (s : Store) (w : Nat) : Prop :=
-  ∀ h, w < h → h ≤ s.height → ∃ b, s.getBlock h = some b ∧ (b.data.txs ≠ [] → dataHeight b = h)
+  ∀ h, w < h → h ≤ s.height → ∃ b, s.getBlock h = some b ∧ dataHeight b = h
+
+/-- the last pending block is the block at the chain height -/
+theorem pendingBlocks_last {s : Store} {w : Nat} {bs : List Block} (h : pendingBlocks s w = some bs) (hlt : w < s.height) :
+    ∃ b, bs.getLast? = some b ∧ s.getBlock s.height = some b ∧ lastDH bs = dataHeight b := by
+  obtain ⟨hl, hget⟩ := pendingBlocks_some h
+  have hi : bs.length - 1 < bs.length := by omega
+  have hg := hget (bs.length - 1) hi
+  have hidx : w + 1 + (bs.length - 1) = s.height := by omega
+  rw [hidx] at hg
+  have hlast : bs.getLast? = some bs[bs.length - 1] := by
+    rw [List.getLast?_eq_getElem?, List.getElem?_eq_getElem hi]
+  exact ⟨_, hlast, hg, by simp [lastDH, hlast]⟩
 
 theorem hdrItems_heights {s : Store} {w : Nat} {bs : List Block} (h : pendingBlocks s w = some bs) (hok : HdrOK s w) :
     (hdrItems bs).map (·.height) = List.range' (w + 1) (s.height - w) := by
@@ -190,16 +211,77 @@ theorem headersIter_inv (a : ANode) (script : List DAAns) :
     obtain ⟨rem, pre, hi, _⟩ := submitLoop_loopInv false maxSubmitAttempts a (hdrItems bs) script []
     exact ⟨hdrItems bs, rem, pre, hi, hdrItems_mem hbs⟩
 
-theorem dataIter_inv (a : ANode) (script : List DAAns) :
-    ∃ items rem pre, LoopInv true a items (dataIter a script).1 rem (dataIter a script).2.1 pre ∧
+/-- what every submission iteration guarantees, whether it ran the retry loop or (data, all pending blocks empty) only
+moved the watermark: the part of `LoopInv` that does not speak about the acknowledged prefix -/
+structure IterInv (d : Bool) (a0 : ANode) (items : List Item) (a : ANode) (ws : List SW) : Prop where
+  frame : Frame d a0 a
+  store : a.n.store = a0.n.store.applyAll ws
+  writes : ∀ w ∈ ws, ∃ v, w = SW.setMeta (wmKey d) (le64 v) ∧ wm d a0 < v ∧ v ≤ wm d a
+  lastWrite : (ws = [] ∧ wm d a = wm d a0) ∨ ws.getLast? = some (SW.setMeta (wmKey d) (le64 (wm d a)))
+  wmMono : wm d a0 ≤ wm d a
+  daH : a0.daH ≤ a.daH
+  blobs : ∃ new, a.daBlobs = new ++ a0.daBlobs ∧
+    ∀ e ∈ new, a0.daH ≤ e.1 ∧ e.1 < a.daH ∧ e.2.1 = d ∧ ∃ it ∈ items, it.height = e.2.2
+  marksNew : ∃ nm, marks d a = nm ++ marks d a0 ∧
+    ∀ e ∈ nm, ∃ it ∈ items, e.1 = it.key ∧ a0.daH ≤ e.2 ∧ e.2 < a.daH ∧ (e.2, d, it.height) ∈ a.daBlobs
+
+theorem LoopInv.toIter {d : Bool} {a0 : ANode} {items0 : List Item} {a : ANode} {rem : List Item} {ws : List SW}
+    {pre : List Item} (h : LoopInv d a0 items0 a rem ws pre) : IterInv d a0 items0 a ws := by
+  refine ⟨h.frame, h.store, h.writes, h.lastWrite, h.wmMono, h.daH, h.blobs, ?_⟩
+  obtain ⟨nm, h1, h2⟩ := h.marksNew
+  refine ⟨nm, h1, fun e he => ?_⟩
+  obtain ⟨it, hit, r⟩ := h2 e he
+  exact ⟨it, by rw [h.split]; exact List.mem_append_left _ hit, r⟩
+
+theorem raiseWm_frame (a : ANode) (d : Bool) (h : Nat) : Frame d a (raiseWm a d h).1 := by
+  obtain ⟨r1, r2, r3, r4, r5, r6, r7, r8, r9, r10, r11, r12, r13⟩ := raiseWm_spec a d h
+  refine ⟨r3, r4, by cases d <;> simp [marks, r1, r2], r8, r11, r12, r13, ?_, ?_, ?_⟩
+  · rw [r9, r10]; split <;> rfl
+  · rw [r9, r10]; split <;> rfl
+  · rw [r9, r10]; split <;> rfl
+
+/-- moving the watermark alone -/
+theorem raiseWm_iter (a : ANode) (d : Bool) (h : Nat) (items : List Item) :
+    IterInv d a items (raiseWm a d h).1 (raiseWm a d h).2 := by
+  obtain ⟨r1, r2, r3, r4, r5, r6, r7, r8, r9, r10, r11, r12, r13⟩ := raiseWm_spec a d h
+  refine ⟨raiseWm_frame a d h, r9, ?_, ?_, by rw [r7]; exact Nat.le_max_left _ _, by rw [r5]; exact Nat.le_refl _,
+    ⟨[], by rw [r6]; rfl, by simp⟩, ⟨[], by cases d <;> simp [marks, r1, r2], by simp⟩⟩
+  · intro w hw
+    rw [r10] at hw
+    split at hw
+    · rename_i hgt
+      simp only [List.mem_cons, List.mem_nil_iff, or_false] at hw
+      exact ⟨h, hw, hgt, by rw [r7]; exact Nat.le_max_right _ _⟩
+    · cases hw
+  · rw [r10, r7]
+    split
+    · rename_i hgt
+      right
+      have : max (wm d a) h = h := Nat.max_eq_right (Nat.le_of_lt hgt)
+      rw [this]; rfl
+    · rename_i hgt
+      left
+      exact ⟨rfl, Nat.max_eq_left (by omega)⟩
+
+theorem headersIter_iter (a : ANode) (script : List DAAns) :
+    ∃ items, IterInv false a items (headersIter a script).1 (headersIter a script).2.1 ∧
+      (∀ it ∈ items, ∃ k b, a.n.hdrWm < k ∧ k ≤ a.n.store.height ∧ a.n.store.getBlock k = some b ∧
+        it = { height := b.sh.hdr.height, key := b.sh.hdr.hash }) := by
+  obtain ⟨items, rem, pre, hi, hmem⟩ := headersIter_inv a script
+  exact ⟨items, hi.toIter, hmem⟩
+
+/-- every data iteration (skipped, failed to fetch, watermark moved past empty blocks, or the retry loop) -/
+theorem dataIter_iter (a : ANode) (script : List DAAns) :
+    ∃ items, IterInv true a items (dataIter a script).1 (dataIter a script).2.1 ∧
       (∀ it ∈ items, ∃ k b, a.n.dataWm < k ∧ k ≤ a.n.store.height ∧ a.n.store.getBlock k = some b ∧ b.data.txs ≠ [] ∧
         it = { height := dataHeight b, key := b.data.daCommitment }) := by
-  rcases dataIter_cases a script with ⟨h, _⟩ | ⟨h, _⟩ | ⟨bs, _, hbs, _, h⟩
-  · rw [h]; exact ⟨[], [], [], LoopInv.init true a [], by simp⟩
-  · rw [h]; exact ⟨[], [], [], LoopInv.init true a [], by simp⟩
+  rcases dataIter_cases a script with ⟨h, _⟩ | ⟨h, _⟩ | ⟨bs, _, _, _, h⟩ | ⟨bs, _, hbs, _, h⟩
+  · rw [h]; exact ⟨[], (LoopInv.init true a []).toIter, by simp⟩
+  · rw [h]; exact ⟨[], (LoopInv.init true a []).toIter, by simp⟩
+  · rw [h]; exact ⟨[], raiseWm_iter a true (lastDH bs) [], by simp⟩
   · rw [h]
     obtain ⟨rem, pre, hi, _⟩ := submitLoop_loopInv true maxSubmitAttempts a (dataItems bs) script []
-    exact ⟨dataItems bs, rem, pre, hi, dataItems_mem hbs⟩
+    exact ⟨dataItems bs, hi.toIter, dataItems_mem hbs⟩
 
 /-- the header watermark stays at or below the chain height -/
 theorem headersIter_wm_le (a : ANode) (script : List DAAns) (hok : HdrOK a.n.store a.n.hdrWm)
